@@ -28,7 +28,7 @@ EXPLANATION = (
     '(6) with the floor-halving loop lemma for setUsedSize (x*2^n <= s, x < 256) exact constant evaluation of getIndex at the '
     'extreme key for every (topBits in 128..255, shift in 2..40) shows idx+3 < topBits*2^shift <= usedSize.'
     ' In probe a loaded record is written back or handed out only after the key decoded from that very load matched (typestate, not mere dominance).'
-    ' Added later; (9) in reSize tableSize is zeroed between the release of the buffer and every allocation that may throw.')
+    ' Added later; (9) in reSize tableSize is zeroed between the release of the buffer and every allocation that may throw. (3, revised) every value the generation counter takes fits its field, or setBits confines an over-wide value to the field (evaluated; replaces a comparison of the wrap mask with the field width).')
 UNDECIDED = ('torn-read freedom beyond "atomics + xor check are in place" (a memory-model argument); replacement-policy quality; '
              'tables below 512 entries (outside the property domain).')
 ASSUMPTIONS = ['table sizes >= 512 entries (property domain); usedSize <= 2^48 entries',
@@ -377,10 +377,39 @@ def c3_bitfields(fb, rep):
     # value ranges
     ng = fb.find1(TT + '::nextGeneration')
     if rep.need(clause, ng, TT + '::nextGeneration') and 'Generation' in layout:
-        masks = {n.get('r', {}).get('cv') for _, _, e in ng.events() for n in walk(e) if n.get('k') == 'bin' and n.get('op') == '&'}
         w = layout['Generation'][1]
-        rep.ob(clause, 'K11 constant agreement', 'generation wrap mask equals the field width', masks == {(1 << w) - 1}, ng.where,
-               'masks %s, width %d' % (sorted(m for m in masks if m is not None), w), ng.sname)
+        # every value the generation counter can take (nextGeneration iterated from the cleared value 0 to a cycle) fits the
+        # generation field - or setBits confines an out-of-range value to its own field.  Either alone keeps a refreshed
+        # entry's other fields (type, depth, score) intact; a counter that reaches 2^w together with an unmasked setBits
+        # rewrites the neighbouring type bit of every entry refreshed in that generation.
+        ev2 = Evaluator(fb)
+        seen_g, g, ok_eval = [], 0, True
+        try:
+            for _ in range(600):
+                if g in seen_g:
+                    break
+                seen_g.append(g)
+                g = ev2.run(ng, {'this.generation': g})['env']['this.generation']
+        except (Unknown, KeyError) as ex:
+            ok_eval = False
+            rep.broken(clause, 'nextGeneration not evaluable: %s' % ex)
+        if ok_eval:
+            fits = max(seen_g) < (1 << w) and min(seen_g) >= 0
+            confined = None
+            if sb is not None:
+                try:
+                    confined = True
+                    first, size = layout['Generation']
+                    for val in ((1 << size), (1 << size) | 1, 0xFFFFFFFF):
+                        for bg in (0, 0xA5A5A5A5A5A5A5A5):
+                            r = ev2.run(sb, {'this.data': bg, ('v', sb.d['params'][0]['id']): first, ('v', sb.d['params'][1]['id']): size, ('v', sb.d['params'][2]['id']): val})
+                            mask = ((1 << size) - 1) << first
+                            if (r['env']['this.data'] & 0xFFFFFFFFFFFFFFFF & ~mask) != (bg & ~mask):
+                                confined = False
+                except (Unknown, KeyError):
+                    confined = None
+            rep.ob(clause, 'K12 range', 'every value the generation counter takes fits its %d-bit field, or setBits confines an over-wide value to the field' % w, fits or bool(confined), ng.where,
+                   'counter cycle %s..%s (%d values); setBits confines over-wide values: %s' % (min(seen_g), max(seen_g), len(seen_g), confined), ng.sname)
     consts = {}
     for q in ('TType::T_EMPTY', 'TType::T_EXACT', 'TType::T_GE', 'TType::T_LE', 'SearchConst::MATE0', 'SearchConst::MAX_SEARCH_DEPTH'):
         consts[q] = fb.global_const(q)
